@@ -105,7 +105,7 @@ def positions_reached(source: str):
 # ----------------------------------------------------------------------------- project generation
 def gen_tree(rng, comps=None, max_depth=4, root="proj", init_prob=0.7, extra_files=True):
     """Returns dict relpath -> None (dir) / "" (file placeholder). Paths relative to tmp base, first component = root."""
-    comps = comps or ["a", "b", "c", "ab", "a_b", "pkg", "m", "util", "utils", "x"]
+    comps = comps or ["a", "b", "c", "ab", "a_b", "pkg", "m", "util", "utils", "x", "py", "pyx", "pyutil"]
     tree = {root: None}
     dirs = [root]
     n = rng.randint(2, 9)
@@ -129,7 +129,9 @@ def gen_tree(rng, comps=None, max_depth=4, root="proj", init_prob=0.7, extra_fil
         if rng.random() < init_prob:
             tree[d + "/__init__.py"] = ""
         if extra_files and rng.random() < 0.2:
-            tree[d + "/" + rng.choice(["notes.txt", "data.json", "README", "x.pyc", "py"])] = "text"
+            extra = d + "/" + rng.choice(["notes.txt", "data.json", "README", "x.pyc", "py"])
+            if extra not in tree and extra + ".py" not in tree:
+                tree[extra] = "text"
     return tree
 
 
